@@ -52,7 +52,7 @@ pub fn gen_case(tape: &mut Tape, cfg: BodyCfg, knobs: &LangKnobs) -> Value {
     let (body, usable) = { let mut g = BodyGen::new(tape, &spec, cfg); let b = g.body(); (b, g.usable.clone()) };
     let _ = usable;
     let text = format!("{{\n{}}}\n", print_body(&body));
-    let vals: Vec<Vec<(i32, Val)>> = (0..8).map(|_| gen_valuation(tape, &spec)).collect();
+    let vals: Vec<Vec<(i32, Val)>> = gen_valuations(tape, &spec, 8);
     let mentioned: Vec<i32> = mentioned_regs(&body).into_iter().collect();
     let mentioned_plain: Vec<i32> = mentioned_regs_outside_diff_switch(&body).into_iter().collect();
     json!({"spec": spec.to_json(), "text": text, "valuations": valuations_to_json(&vals), "mentioned": mentioned, "mentioned_plain": mentioned_plain, "mentioned_live": mentioned_regs_live(&body).into_iter().collect::<Vec<i32>>(), "stmts": count_stmts(&body),
